@@ -500,7 +500,17 @@ class SimSocket:
         del self.rx_inflight[:]
 
     def shutdown(self, how):
-        pass
+        if self.closed:
+            raise self._ebadf()
+        if self.kind != "conn" or self.rx_rst == 2:
+            # not connected (any more): a connection the peer has reset is in CLOSE state for the kernel
+            raise OSError(errno.ENOTCONN, "Transport endpoint is not connected")
+        if how in (_real_socket.SHUT_WR, _real_socket.SHUT_RDWR):
+            peer = self.peer
+            if peer is not None and not peer.closed and peer.rx_fin == 0:
+                peer.rx_fin = 1
+                if peer.side == "peer":
+                    peer.arrive()
 
     def __enter__(self):
         return self
